@@ -708,7 +708,7 @@ class ReversibleRule(BaseRule):
 
         :param rule_number: the elementary cellular automata rule number to be used, in NKS convention
         """
-        self._previous_state = init_state
+        self._previous_state = np.array(init_state)
         self._rule_number = rule_number
 
     def __call__(self, n, c, t):
